@@ -433,7 +433,7 @@ End Mat.
 
 Arguments nz {R} _ _. Arguments veq {R} _ _. Arguments vadd {R} _ _. Arguments vscale {R} _ _.
 Arguments zeros {R} _. Arguments vdot {R} _ _. Arguments lincomb {R} _ _ _.
-Arguments mmul {R} _ _ _. Arguments madd {R} _ _. Arguments sident {R} _ _. Arguments ident {R} _.
+Arguments col {R} _ _. Arguments mmul {R} _ _ _. Arguments madd {R} _ _. Arguments sident {R} _ _. Arguments ident {R} _.
 Arguments vzero {R} _. Arguments vec_eqb {R} _ _. Arguments mat_eqb {R} _ _.
 Arguments check_kernel_cert {R} _ _ _ _ _. Arguments check_independent {R} _ _ _.
 Arguments check_generates {R} _ _ _ _ _ _ _ _.
